@@ -94,6 +94,43 @@ for g in GROUPS:
             env.holds('returns_algebra_ltype', r.ltype is altype(pp, g))
             env.eq('Jinvp_is_Jl_inv_of_Log_times_p', raw(r), getattr(op, a_ + '_Jl_inv')(xi) @ pd)
             env.eq('Jinvp_accepts_plain_tensor', raw(X.Jinvp(pd)), raw(r))
+
+        @obligation(f'C05.{g}.Jinvp_shapes', functions=[f'{LT}:{g}Type.Jinvp', f'{LT}:LieTensor.Jinvp', f'{OPS}:{a_}_Jl_inv', f'{OPS}:broadcast_inputs'], max_paths=16, timeout=300,
+                    note='Log by contract (one abstract algebra element per group element, recognised by its first entry)')
+        def jinvp_shapes(env):
+            """broadcast shape classes of Jinvp: one group element against a batch of tangent vectors, a batch against one vector, batch against
+            batch (sizes 2 and 3) - item i of the result is Jl_inv(Log X_i) p_i"""
+            op = env.load(OPS); pp = env.load('pypose'); T = env.T
+            lt = env.load(LT)
+            from pvc import storch as st
+            Xs = [group_elem(env, g, f'X{i}', qregimes=('generic',)) for i in range(3)]
+            xis = [env.vec(f'logX{i}', S.DOF[g], regimes=('generic',)) for i in range(3)]
+            ps = [alg_elem(env, g, f'p{i}', regimes=('generic',)) for i in range(3)]
+            def log_of(row):
+                if env.sym:
+                    for Xi, xi_ in zip(Xs, xis):
+                        if all(a.same(b) for a, b in zip(st._T(row)._a.flat, st._T(Xi)._a.flat)): return xi_
+                else:
+                    for Xi, xi_ in zip(Xs, xis):
+                        if bool((row == Xi).all()): return xi_
+                raise AssertionError('Log applied to something that is not one of the group elements')
+            class LogStub:
+                @staticmethod
+                def apply(x):
+                    rows = x.reshape(-1, x.shape[-1])
+                    return T.stack([log_of(rows[i]) for i in range(rows.shape[0])], 0).reshape(tuple(x.shape[:-1]) + (S.DOF[g],))
+            env.stub(lt, g + '_Log', LogStub)
+            Jinv = getattr(op, a_ + '_Jl_inv')
+            ref = lambda i, j: Jinv(xis[i]) @ ps[j]
+            one = lambda Z: lie(pp, g, Z)
+            for n in (2, 3):
+                XB = one(T.stack(Xs[:n], 0)); PB = alg(pp, g, T.stack(ps[:n], 0))
+                env.eq(f'batch of {n} against batch of {n}', raw(XB.Jinvp(PB)), T.stack([ref(i, i) for i in range(n)], 0))
+                env.eq(f'one group element against {n} tangent vectors', raw(one(Xs[0]).Jinvp(PB)), T.stack([ref(0, i) for i in range(n)], 0))
+                env.eq(f'{n} group elements against one tangent vector', raw(XB.Jinvp(alg(pp, g, ps[0]))), T.stack([ref(i, 0) for i in range(n)], 0))
+            P22 = alg(pp, g, T.stack([T.stack(ps[:2], 0), T.stack(ps[1:3], 0)], 0))          # lshape (2, 2)
+            env.eq('one group element against a (2, 2) batch', raw(one(Xs[0]).Jinvp(P22)),
+                   T.stack([T.stack([ref(0, 0), ref(0, 1)], 0), T.stack([ref(0, 1), ref(0, 2)], 0)], 0))
     mk()
 
 
